@@ -463,10 +463,12 @@ def check_list_union(ver, kind, spec, st):
     return out
 
 
-COMBO_PATTERNS = [None, r'[0-9]+', r'[a-z]+', r'.{1,3}', r'1.*', r'true|false|[0-9]', r'[0-9]{4}-[0-9]{2}-[0-9]{2}', r'[^1]*']
-COMBO_MEMBERS = ['int', 'boolean', 'date', 'NCName', 'decimal']
+COMBO_PATTERNS = [None, r'[0-9]+', r'[a-z]+', r'.{1,3}', r'1.*', r'true|false|[0-9]', r'[0-9]{4}-[0-9]{2}-[0-9]{2}', r'[^1]*',
+                  r'[a-z]+( [a-z]+)*|[0-9]+']
+COMBO_MEMBERS = ['int', 'boolean', 'date', 'NCName', 'decimal', 'string', 'normalizedString']
+MEMBER_WS = {'string': dt.WS_PRESERVE, 'normalizedString': dt.WS_REPLACE}      # every other member collapses
 COMBO_POOL = ['1', '01', 'true', 'false', 'abc', '2000-01-01', '12345', 'x1', '-1', 'ab', '1.5', '10', 'zz9', '0',
-              ' 12', '12 ', ' true ', '  ab ', '1  2', ' x1']
+              ' 12', '12 ', ' true ', '  ab ', '1  2', ' x1', 'ab cd', 'ab  cd', ' ab cd']
 
 
 def _pats(pat):
@@ -477,22 +479,34 @@ def _pats(pat):
 def combo_ref(spec, text, v11):
     """Reference verdict of one value of a combo type (no surrounding whitespace in COMBO_POOL)."""
     kind, members, pat = spec
-    # every member of COMBO_MEMBERS has whiteSpace=collapse, so the normalised literal of a union value is the
-    # collapsed text whichever member validates it; an atomic restriction normalises by its base
+    # a union value is normalised by the whiteSpace of the FIRST member that validates it (the active member), and the
+    # patterns of the restriction apply to that normalised literal; an atomic restriction normalises by its base
     if kind == 'lu':
         items = text.split()
-    elif kind == 'a' and members[0] == 'string':
-        items = [text]
     else:
-        items = [dt.normalize(text, dt.WS_COLLAPSE)]
+        items = [text]
     for it in items:
-        oks = [dt.check(m, it, v11)[0] for m in members]
-        if any(o is None for o in oks):
-            return None
-        if not any(oks):
-            return False
+        if kind == 'a':
+            norm = it if members[0] == 'string' else dt.normalize(it, dt.WS_COLLAPSE)
+            ok = dt.check(members[0], norm, v11)[0]
+            if ok is None:
+                return None
+            if not ok:
+                return False
+        else:
+            norm = None
+            for m in members:
+                cand = dt.normalize(it, MEMBER_WS.get(m, dt.WS_COLLAPSE))
+                ok = dt.check(m, cand, v11)[0]
+                if ok is None:
+                    return None
+                if ok:
+                    norm = cand
+                    break
+            if norm is None:
+                return False
         # patterns of different derivation steps are ANDed
-        if any(not _re.fullmatch(p, it) for p in _pats(pat)):
+        if any(not _re.fullmatch(p, norm) for p in _pats(pat)):
             return False
     return True
 
